@@ -600,6 +600,10 @@ func (e *Engine) havoc(st *State, vars map[*types.Var]bool, heap bool) {
 	if heap {
 		st.heap = e.Fresh("heap", smt.Heap)
 	}
+	// the effect trace grows in loops that call function values
+	if tr, ok := st.named["$trace"]; ok && e.TraceOn {
+		st.named["$trace"] = Val{e.Fresh("trace", smt.V), tr.Ty}
+	}
 }
 
 func sortVars(vs []*types.Var) {
@@ -721,6 +725,7 @@ func (e *Engine) execFor(st *State, s *ast.ForStmt, label string) ([]outcome, er
 	if err := e.assumeInvs(head, s, bindCtr(head)); err != nil {
 		return nil, err
 	}
+	e.probeLoop(head, s)
 	var res []outcome
 	// exit path
 	exit := head.Clone()
@@ -801,6 +806,11 @@ func (e *Engine) execRange(st *State, s *ast.RangeStmt, label string) ([]outcome
 		if err := e.assumeInvs(head, s, bind(i)); err != nil {
 			return nil, err
 		}
+		{
+			pr := head.Clone()
+			pr.Assume(smt.Gt(i, smt.IntLit(0)))
+			e.probeLoop(pr, s)
+		}
 		exit := head.Clone()
 		exit.Assume(smt.Eq(i, n))
 		res := []outcome{{st: exit, kind: oFall}}
@@ -810,7 +820,20 @@ func (e *Engine) execRange(st *State, s *ast.RangeStmt, label string) ([]outcome
 			body.vars[keyObj] = i
 		}
 		if valObj != nil {
-			body.vars[valObj] = Unbox(smt.App(smt.V, "s_at", coll.T, i), SortOf(et))
+			src := coll.T
+			// range over a slice variable whose elements the body overwrites:
+			// the range clause copies the slice header, not the array, so
+			// elements are read from the current contents
+			if id, ok := ast.Unparen(s.X).(*ast.Ident); ok {
+				if v, ok := e.info().ObjectOf(id).(*types.Var); ok && mod[v] {
+					if _, isSlice := v.Type().Underlying().(*types.Slice); isSlice {
+						if cur, ok := body.vars[v]; ok {
+							src = cur
+						}
+					}
+				}
+			}
+			body.vars[valObj] = Unbox(smt.App(smt.V, "s_at", src, i), SortOf(et))
 		}
 		outs, err := e.execBlock(body, s.Body.List)
 		if err != nil {
@@ -860,6 +883,11 @@ func (e *Engine) execRange(st *State, s *ast.RangeStmt, label string) ([]outcome
 		head.Assume(smt.Forall([]smt.Bound{{Name: "k", Sort: smt.V}}, smt.Implies(has(vis, kb), smt.App(smt.Bool, "m_has", coll.T, kb)), has(vis, kb)))
 		if err := e.assumeInvs(head, s, bind(vis, cnt)); err != nil {
 			return nil, err
+		}
+		{
+			pr := head.Clone()
+			pr.Assume(smt.Gt(cnt, smt.IntLit(0)))
+			e.probeLoop(pr, s)
 		}
 		exit := head.Clone()
 		exit.Assume(smt.Eq(cnt, card))
@@ -997,4 +1025,10 @@ func elemType(t types.Type) types.Type {
 		return u.Elem()
 	}
 	return nil
+}
+
+// probeLoop: the loop head (after some iterations) must be reachable under the
+// invariants, otherwise the step obligations are vacuous.
+func (e *Engine) probeLoop(st *State, s ast.Stmt) {
+	e.Probe(st, fmt.Sprintf("loop%d.head", e.loopOrdinal(s)))
 }
